@@ -821,8 +821,12 @@ func (db *SpecDB) loadFile(path, pkg string, assumed bool) error {
 			db.Ifaces[it.Name] = it
 			curC, curL, curLoop, curI, curM = nil, nil, nil, it, nil
 		case "interface":
-			it := &IfaceSpec{Name: rc.rest, Pkg: pkg, Methods: map[string]*IfaceMethodSpec{}}
-			db.Ifaces[it.Name] = it
+			it, exists := db.Ifaces[rc.rest]
+			if !exists {
+				// a second block for the same interface adds to the first (methods, ghost fields)
+				it = &IfaceSpec{Name: rc.rest, Pkg: pkg, Methods: map[string]*IfaceMethodSpec{}}
+				db.Ifaces[it.Name] = it
+			}
 			curC, curL, curLoop, curI, curM = nil, nil, nil, it, nil
 		case "ghost":
 			ps, err := parseParams(rc.rest)
